@@ -55,7 +55,7 @@ func init() {
 }
 
 type plan struct {
-	Kind    string `json:"kind"` // S1 natural, S2 done-before-launcher-listens, S3 slow-daemon, S4 launcher-then-daemon, S0 the handler exits before Done() (a fault; the launches AFTER it are what is checked)
+	Kind    string `json:"kind"` // S6 one-shot daemon with the launcher stopped across Done() and the daemon's exit, S1 natural, S2 done-before-launcher-listens, S3 slow-daemon, S4 launcher-then-daemon, S0 the handler exits before Done() (a fault; the launches AFTER it are what is checked)
 	Markers int    `json:"markers"`
 	Name    string `json:"name"`
 	Group   int    `json:"group"` // launches with the same group number run concurrently
@@ -123,6 +123,24 @@ func daemonBody(registered string) {
 			os.Exit(97)
 		}
 	}
+	if p.Kind == "S6" {
+		// a one-shot daemon whose launcher is stalled (a stopped process) across
+		// the hand-over: it waits until the launcher certainly sits in its wait,
+		// stops it, calls Done() and leaves at once. The launcher wakes up later
+		// (the harness continues it) with BOTH events waiting: the signal and
+		// the end of its child.
+		time.Sleep(30 * time.Millisecond)
+		if syscall.Kill(lpid, syscall.SIGSTOP) == nil {
+			for i := 0; i < 200 && procState(lpid) != 'T'; i++ {
+				time.Sleep(time.Millisecond)
+			}
+			os.WriteFile(filepath.Join(dir, "launcher.stopped"), []byte(strconv.Itoa(lpid)), 0644)
+		}
+		err := daemon.Done()
+		os.WriteFile(filepath.Join(dir, "d-done.tmp"), []byte(fmt.Sprint(err)), 0644)
+		os.Rename(filepath.Join(dir, "d-done.tmp"), filepath.Join(dir, "d-done"))
+		return
+	}
 	if p.ScrubEnv {
 		// a careful daemon removes the role variables so that helpers it starts
 		// from the same binary are not taken for daemons
@@ -167,6 +185,19 @@ type outcome struct {
 
 // alive: the process exists and is not a zombie (the sandbox's pid 1 may not
 // reap orphans promptly).
+// procState is the state letter of /proc/<pid>/stat (0: no such process).
+func procState(pid int) byte {
+	b, err := os.ReadFile(fmt.Sprintf("/proc/%d/stat", pid))
+	if err != nil {
+		return 0
+	}
+	s := string(b)
+	if i := strings.LastIndexByte(s, ')'); i >= 0 && i+2 < len(s) {
+		return s[i+2]
+	}
+	return 0
+}
+
 func alive(pid int) bool {
 	if syscall.Kill(pid, 0) != nil {
 		return false
@@ -297,6 +328,35 @@ func runOne(base string, p plan, barrier *sync.WaitGroup) (o outcome) {
 		fail("launch-returned-before-done", "Launch returned (pid=%d) although %s", res.pid, what)
 	}
 	switch p.Kind {
+	case "S6":
+		// whatever happens below, a launcher the daemon stopped is continued
+		contLauncher := func() {
+			if b, err := os.ReadFile(filepath.Join(dir, "launcher.stopped")); err == nil {
+				if lp, _ := strconv.Atoi(string(b)); lp > 1 && procState(lp) == 'T' {
+					syscall.Kill(lp, syscall.SIGCONT)
+				}
+			}
+		}
+		defer contLauncher()
+		r := waitOrReturn(func() bool { return exists(filepath.Join(dir, "d-done")) })
+		if r == "timeout" {
+			o.Infra = "one-shot daemon never reported Done()"
+			return
+		}
+		if r == "reached" {
+			// wait until the daemon is gone (a zombie of the stopped launcher)
+			var dp int
+			if b, err := os.ReadFile(filepath.Join(dir, "daemon.info")); err == nil {
+				fmt.Sscan(string(b), &dp)
+			}
+			for i := 0; i < 2000 && dp > 0 && alive(dp); i++ {
+				time.Sleep(time.Millisecond)
+			}
+			time.Sleep(20 * time.Millisecond)
+			ev("one-shot daemon %d called Done() and left; launcher stopped=%v", dp, exists(filepath.Join(dir, "launcher.stopped")))
+			contLauncher()
+			ev("launcher continued")
+		}
 	case "S2":
 		// the launcher stays parked (before it listens for the signal) until
 		// the daemon reports that Done() has returned
@@ -396,6 +456,14 @@ func runOne(base string, p plan, barrier *sync.WaitGroup) (o outcome) {
 		fail("done-not-reported", "the daemon did not get past Done()")
 	} else if b, _ := os.ReadFile(filepath.Join(dir, "d-done")); string(b) != "<nil>" {
 		fail("done-error", "Done() returned %s", b)
+	}
+	if p.Kind == "S6" {
+		// this daemon left of its own accord right after Done(): nothing to ask
+		// about its later life, only that no launcher stays behind
+		if lpid > 0 && alive(lpid) && ppidOf(lpid) == os.Getpid() {
+			fail("launcher-still-there", "the launcher (pid %d) still exists after Launch returned", lpid)
+		}
+		return
 	}
 	time.Sleep(100 * time.Millisecond)
 	if !waitFile(filepath.Join(dir, "io-done"), 4*time.Second) && alive(daemonPid) {
@@ -581,6 +649,17 @@ func main() {
 	}
 	group++
 	plans = append(plans, plan{Kind: "S1", Markers: 2, Name: "h1", Group: group})
+	// S6: one-shot daemons (Done(), then gone) whose launcher is stalled across
+	// both events; each alone, the launcher's choice between the two events is
+	// the operating system's, so the schedule is repeated
+	nOneShot := 8
+	if *n > 400 {
+		nOneShot = *n / 40
+	}
+	for i := 0; i < nOneShot; i++ {
+		group++
+		plans = append(plans, plan{Kind: "S6", Markers: 1 + i%3, Name: fmt.Sprintf("h%d", i%nHandlers), Group: group})
+	}
 	// S5, once per caller and alongside everything else: a daemon that takes
 	// seven seconds to reach Done() ("however slowly")
 	slowDone := make(chan outcome, 1)
